@@ -169,7 +169,15 @@ impl CompactionWorker {
             .await
             .map_err(|e| CompactorError::ZoneWriter(e.to_string()))?;
         #[cfg(sneldb_verif)]
-        crate::verif_hooks::vpd("cp_output_written", &batch.uid_plans[0].output_segment_id.to_string());
+        crate::verif_hooks::vpd(
+            "cp_output_written",
+            &format!(
+                "{}:{}:{}",
+                batch.uid_plans[0].output_segment_id,
+                batch.input_segment_labels.join(","),
+                batch.uid_plans.iter().map(|p| p.uid.clone()).collect::<Vec<_>>().join(",")
+            ),
+        );
 
         // Prepare new entries for handover
         // When multiple UIDs are compacted from the same input segments,
